@@ -14,7 +14,13 @@ use crate::shm::*;
 fn budget(tier: &str, quick_s: u64, thorough_s: u64) -> Duration {
     match std::env::var("RDBCHECK_BUDGET_S").ok().and_then(|s| s.parse().ok()) {
         Some(s) => Duration::from_secs(s),
-        None => Duration::from_secs(if tier == "thorough" { thorough_s } else { quick_s }),
+        None => {
+            if tier == "thorough" {
+                crate::report::scaled(Duration::from_secs(thorough_s))
+            } else {
+                Duration::from_secs(quick_s)
+            }
+        }
     }
 }
 
